@@ -181,6 +181,9 @@ inductive Pending
   | set (v : V)
   | setupnp
   | getupnp
+  | avalidate (v : V)
+  | aset (v : V)
+  | asetupnp
 
 structure St where
   row : Option TypeRow := none
@@ -192,6 +195,8 @@ structure St where
   schema : Option (Schema FV) := none
   cell : Cell FV := .val .none
   implValue : V := .none                 -- what the implementation's `.value` last read
+  argCell : V := .none                   -- `_value` of the `UpnpAction.Argument` bound to the variable
+  implArgValue : V := .none
   expect : String := ""                  -- model's `res` line
   pending : Pending := .none
   corrOk : Bool := true
@@ -250,6 +255,7 @@ def stepOp (st : St) (toks : List String) : St :=
       | some d, some row =>
           let r := mkSchema fo tb row st.strict d
           { st with decl := d, schema := r.toOption, pending := .decl, cell := .val .none, implValue := .none,
+                    argCell := .none, implArgValue := .none,
                     expect := match r with | .ok _ => "ok" | .error e => fmtErr e }
       | _, _ => corrFail st "bad decl"
   | "dval" :: rest => { st with dvals := parseDvalLine rest }
@@ -294,6 +300,23 @@ def stepOp (st : St) (toks : List String) : St :=
           { st with pending := .setupnp, cell := c,
                     expect := s!"{fmtSetRes r} {fmtVal c.read} {if c == .err then "1" else "0"} {fmtValRes (coercePython fo tb row x)}" }
       | _, _, _ => corrFail st s!"bad setupnp {s}"
+  | ["avalidate", v] =>
+      match parseVal v, st.schema with
+      | some x, some sc =>
+          { st with pending := .avalidate x, expect := if sc.check fo x then "ok" else "!UpnpValueError" }
+      | _, _ => corrFail st s!"bad avalidate {v}"
+  | ["aset", v] =>
+      match parseVal v, st.schema with
+      | some x, some sc =>
+          let (c, r) := argSetValue fo sc st.argCell x
+          { st with pending := .aset x, argCell := c, expect := s!"{fmtSetRes r} {fmtVal c}" }
+      | _, _ => corrFail st s!"bad aset {v}"
+  | ["asetupnp", s] =>
+      match parseStrArg s, st.row with
+      | some x, some row =>
+          let (c, r) := argSetUpnpValue fo tb row st.argCell x
+          { st with pending := .asetupnp, argCell := c, expect := s!"{fmtSetRes r} {fmtVal c}" }
+      | _, _ => corrFail st s!"bad asetupnp {s}"
   | ["getupnp"] =>
       match st.row with
       | some row => { st with pending := .getupnp, expect := fmtStrRes (coerceUpnp fo row st.cell.read) }
@@ -348,6 +371,25 @@ def stepOp (st : St) (toks : List String) : St :=
                 if ok then st1 else judgeFail st1 s!"upnp_value set -> {r}, value {fmtVal st.implValue} -> {after} (converted {conv})"
             | some a, _, _ => { st0 with implValue := a }
             | none, _, _ => judgeFail st0 s!"unparsable value {after}"
+        | .avalidate v, [r] =>
+            match st.dvals with
+            | some d =>
+                if validateJ fo st.strict ty needTz d v (parseSetRes r) then st0
+                else judgeFail st0 s!"argument validate {fmtVal v} -> {r}"
+            | none => st0
+        | .aset v, [r, after] =>
+            match parseVal after, st.dvals with
+            | some a, some d =>
+                let st1 := { st0 with implArgValue := a }
+                if setJ fo st.strict ty needTz d v (parseSetRes r) st.implArgValue a then st1
+                else judgeFail st1 s!"argument set {fmtVal v} -> {r}, value {fmtVal st.implArgValue} -> {after}"
+            | some a, none => { st0 with implArgValue := a }
+            | none, _ => judgeFail st0 s!"unparsable value {after}"
+        | .asetupnp, [_, after] =>
+            -- not judged (design/C08.md: the response decoder); only tracked
+            match parseVal after with
+            | some a => { st0 with implArgValue := a }
+            | none => st0
         | _, _ => st0
   | _ => corrFail st s!"bad-op {" ".intercalate toks}"
 
